@@ -145,6 +145,44 @@ impl BlockExecutorS {
 //@ end
 }
 
+// ---- execute_chargeable_transaction: the steps around the VM run, each a recording stand-in that fails as the harness chose
+pub struct PartialBlockHeader { pub height: BlockHeight }
+impl PartialBlockHeader { pub fn height(&self) -> &BlockHeight { &self.height } }
+pub struct MemoryInstance;
+pub struct ExecutionOptions { pub forbid_fake_coins: bool }
+pub trait IntoChecked { type Metadata; }
+pub trait CheckedMetadataTrait {}
+pub trait ExecutableTransaction: IntoChecked + Chargeable + Into<Transaction> { fn inputs(&self) -> &[u8]; fn outputs(&self) -> &[u8]; fn tx_id(&self) -> TxId; }
+pub trait Cacheable {}
+pub struct ScriptTx { pub id: TxId }
+pub struct Meta;
+impl CheckedMetadataTrait for Meta {}
+impl IntoChecked for ScriptTx { type Metadata = Meta; }
+impl ExecutableTransaction for ScriptTx { fn inputs(&self) -> &[u8] { &[] } fn outputs(&self) -> &[u8] { &[] } fn tx_id(&self) -> TxId { self.id } }
+impl Cacheable for ScriptTx {}
+impl Chargeable for ScriptTx {
+    fn min_gas(&self, _g: &GasCosts, _f: &FeeParameters) -> Word { 0 }
+    fn max_fee_limit(&self) -> Word { 0 }
+    fn refund_fee(&self, _g: &GasCosts, _f: &FeeParameters, _u: Word, _p: Word) -> Option<Word> { Some(0) }
+    fn metered_bytes_size(&self) -> usize { 0 }
+}
+impl From<ScriptTx> for Transaction { fn from(t: ScriptTx) -> Self { Transaction::Mint(Mint { tx_pointer: TxPointer { height: BlockHeight(0), index: 0 }, input_contract: input::contract::Contract { utxo_id: UtxoId(Bytes32(0), 0), balance_root: Bytes32(0), state_root: Bytes32(0), tx_pointer: TxPointer { height: BlockHeight(0), index: 0 }, contract_id: ContractId(0) }, output_contract: output::contract::Contract { input_index: 0, balance_root: Bytes32(0), state_root: Bytes32(0) }, mint_amount: t.id.0, gas_price: 0 }) } }
+pub trait CheckedId { fn id(&self) -> TxId; }
+impl<Tx: ExecutableTransaction> CheckedId for Checked<Tx> { fn id(&self) -> TxId { self.0.tx_id() } }
+/// the order in which the steps ran (1 = extra checks, 2 = VM, 3 = spend inputs, 4 = persist outputs, 5 = fee accounting) and which one fails
+pub struct Steps { pub log: core::cell::RefCell<[u8; 6]>, pub n: Cell<usize>, pub fail_step: u8, pub reverted: bool }
+impl Steps { fn run(&self, k: u8) -> ExecutorResult<()> { let n = self.n.get(); if n < 6 { self.log.borrow_mut()[n] = k; } self.n.set(n + 1); if self.fail_step == k { Err(ExecutorError::Storage) } else { Ok(()) } } }
+pub struct BlockExecutorC { pub options: ExecutionOptions, pub steps: Steps }
+impl BlockExecutorC {
+//@ extract crates/services/executor/src/executor.rs BlockExecutor::execute_chargeable_transaction
+//@ end
+    fn extra_tx_checks<Tx, T>(&self, tx: Checked<Tx>, _h: &PartialBlockHeader, _s: &mut TxStorageTransaction<T>, _m: &mut MemoryInstance) -> ExecutorResult<Checked<Tx>> { self.steps.run(1)?; Ok(tx) }
+    fn attempt_tx_execution_with_vm<Tx, T>(&self, tx: Checked<Tx>, _h: &PartialBlockHeader, _c: ContractId, _g: Word, _s: &mut TxStorageTransaction<T>, _m: &mut MemoryInstance) -> ExecutorResult<(bool, ProgramState, Tx, Arc<Vec<Receipt>>)> { self.steps.run(2)?; Ok((self.steps.reverted, ProgramState(0), tx.0, Arc::new(Vec::new()))) }
+    fn spend_input_utxos<T>(&self, _i: &[u8], _s: &mut TxStorageTransaction<T>, _reverted: bool, _d: &mut ExecutionData) -> ExecutorResult<()> { self.steps.run(3) }
+    fn persist_output_utxos<T>(&self, _h: BlockHeight, _d: &mut ExecutionData, _id: &TxId, _s: &mut TxStorageTransaction<T>, _i: &[u8], _o: &[u8]) -> ExecutorResult<()> { self.steps.run(4) }
+    fn update_execution_data<Tx: Chargeable>(&self, _tx: &Tx, _d: &mut ExecutionData, _r: Arc<Vec<Receipt>>, _g: Word, _rev: bool, _s: ProgramState, _id: TxId) -> ExecutorResult<()> { self.steps.run(5) }
+}
+
 // =====================================================================================================================
 #[cfg(kani)]
 fn any_data() -> ExecutionData {
@@ -280,6 +318,36 @@ fn c06_duplicate_checks() {
     kani::cover!(r2.is_ok(), "[C06.executor-kernels.dup.cover-mint-stored]");
     kani::assert(r2.is_ok() == (!fails && !present), "[C06.executor-kernels.dup.mint-accepted-iff-id-was-never-processed]");
     kani::assert(fails || st2.inner.present.get(), "[C06.executor-kernels.dup.mint-id-is-recorded-as-processed]");
+}
+
+// ---- C06: an executed transaction's id is recorded as processed whether or not its script reverted
+//@ harness kind=proof tier=quick prop=C06 timeout=600 extra="--default-unwind 8"
+#[cfg(kani)]
+#[kani::proof]
+fn c06_executed_transaction_is_recorded() {
+    let id = TxId(kani::any());
+    let present: bool = kani::any();
+    let mut st = TxStorageTransaction { inner: Store { probe: id, present: Cell::new(present), fails: kani::any(), writes: Cell::new(0) } };
+    let fails = st.inner.fails;
+    let fail_step: u8 = kani::any();
+    kani::assume(fail_step <= 5);
+    let exec = BlockExecutorC { options: ExecutionOptions { forbid_fake_coins: kani::any() }, steps: Steps { log: core::cell::RefCell::new([0; 6]), n: Cell::new(0), fail_step, reverted: kani::any() } };
+    let mut data = any_data();
+    let r = exec.execute_chargeable_transaction(Checked(ScriptTx { id }), &PartialBlockHeader { height: BlockHeight(kani::any()) }, ContractId(0), kani::any(), &mut data, &mut st, &mut MemoryInstance);
+    let ok = r.is_ok();
+    core::mem::forget(r);
+    let checks = exec.options.forbid_fake_coins;
+    let step_fails = fail_step != 0 && (fail_step != 1 || checks);
+    kani::cover!(ok && exec.steps.reverted, "[C06.executor-kernels.exec.cover-reverted-transaction-included]");
+    kani::assert(ok == (!step_fails && !fails), "[C06.executor-kernels.exec.succeeds-iff-every-step-and-the-id-record-succeed]");
+    kani::assert(!ok || st.inner.present.get(), "[C06.executor-kernels.exec.included-transaction-id-is-recorded-as-processed-reverted-or-not]");
+    // the id is recorded only after the VM run and the input/output bookkeeping succeeded, and nothing runs after a failed step
+    let log = *exec.steps.log.borrow(); let n = exec.steps.n.get();
+    let first = if checks { 1 } else { 2 };
+    let mut ordered = n >= 1 && log[0] == first;
+    let mut k = 1; while k < 6 { if k < n && !(log[k] == log[k - 1] + 1 && log[k - 1] != fail_step) { ordered = false; } k += 1; }
+    kani::assert(ordered, "[C06.executor-kernels.exec.steps-run-in-order-and-stop-at-the-first-failure]");
+    kani::assert(st.inner.writes.get() == (if !fails && (fail_step == 0 || fail_step == 5 || (fail_step == 1 && !checks)) { 1 } else { 0 }), "[C06.executor-kernels.exec.id-recorded-exactly-once-after-inputs-and-outputs-are-settled]");
 }
 
 // Vacuity canaries
